@@ -24,12 +24,16 @@ ASSUMPTIONS = [
 
 @st.composite
 def proc_case(draw, n, mle=True):
-    if n == 2 and draw(st.booleans()):
+    kind = draw(st.integers(0, 3))
+    if kind == 0:
+        prog = draw(qubits.clifford_program(n, max_gates=5))
+    elif n == 2 and kind == 1:
         prog = draw(qubits.entangling_program(2, max_heralded=1))
     else:
         prog = draw(qubits.qubit_program(n, max_gates=4 if n == 1 else 5, max_heralded=1, three=False))
     wk = draw(st.sampled_from(["haar", "near", "perm", "same"]))
-    return {"prog": prog, "target": [wk, draw(st.integers(0, 10 ** 6))], "mle": mle}
+    return {"prog": prog, "target": [wk, draw(st.integers(0, 10 ** 6))], "mle": mle,
+            "ulp_seed": draw(st.one_of(st.none(), st.integers(0, 10 ** 6)))}
 
 
 def independent_choi(V):
@@ -53,7 +57,9 @@ def run_proc(case):
     snap = snapshot(base)
 
     def experiment(circuits, inputs):
-        return [qubits.exact_counts(c, n, list(s)) for c, s in zip(circuits, inputs, strict=True)]
+        us = case.get("ulp_seed")
+        return [qubits.exact_counts(c, n, list(s), qubits.ulp_choice(us, i))
+                for i, (c, s) in enumerate(zip(circuits, inputs, strict=True))]
 
     choi_ref = call("choi_from_unitary", tomography.choi_from_unitary, V)
     if np.abs(choi_ref - independent_choi(V)).max() > 1e-10:
